@@ -281,6 +281,12 @@ def case_tags(case):
                         'pause_before'):
                 if t.get(key) is not None:
                     tags.add(key)
+                    if t.get('join') is not None and key in (
+                            'wait_before', 'timeout', 'pause_before'):
+                        tags.add('join_policy')
+            if t.get('join') is not None and \
+                    (w.get('task_defaults') or {}).get('wait_before'):
+                tags.add('join_policy')
             for key in ('publish', 'publish_on_error'):
                 for v, e in (t.get(key) or {}).items():
                     pubs.setdefault(v, 0)
